@@ -2,7 +2,7 @@
 
 use crate::engine::{CaseResult, Fail, Prop, Report, Tier};
 use crate::model::Bits;
-use crate::util::{bit_len, frac, hash_of};
+use crate::util::{bit_len, frac, hash_of, mix};
 use crate::{ensure, ensure_eq};
 use proptest::prelude::*;
 use serde::{Deserialize, Serialize};
@@ -54,6 +54,83 @@ pub enum IntOp {
 pub enum Case {
     Raw(Vec<RawOp>),
     Int(Vec<IntOp>),
+    /// a vector of more than 2^32 bits / items (kind, length above 2^32, period of the pattern): checked against closed formulas
+    Giant(u8, u32, u8),
+}
+
+/// Vectors beyond 2^32 bits: the reference is a periodic pattern with closed-form content and counts.
+fn run_giant(kind: u8, extra: u32, period: u8, rep: &mut Report) -> Result<(), Fail> {
+    let n: usize = (1usize << 32) + 3 + (extra as usize % (1 << 22));
+    let words = (n + 63) / 64;
+    match kind % 3 {
+        0 => {
+            // all ones: more than 2^32 set bits
+            let mut v = RawVector::with_len(n, true);
+            ensure_eq!(v.len(), n, "giant.len", "with_len({}, true).len()", n);
+            ensure_eq!(v.count_ones(), n, "giant.count_ones", "count_ones() of {} set bits", n);
+            ensure!(v.bit(0) && v.bit(n - 1) && v.bit(1 << 32) && v.bit((1 << 32) - 1), "giant.bit", "bits around 2^32 of an all-ones vector of {} bits", n);
+            v.push_bit(false);
+            v.push_bit(true);
+            ensure_eq!(v.len(), n + 2, "giant.len", "length after two pushes");
+            ensure_eq!(v.count_ones(), n + 1, "giant.count_ones", "count_ones() after pushing 0 and 1");
+            ensure!(!v.bit(n) && v.bit(n + 1), "giant.bit", "pushed bits");
+            let keep = (1usize << 32) - 5;
+            v.resize(keep, false);
+            ensure_eq!((v.len(), v.count_ones()), (keep, keep), "giant.resize", "(len, count_ones) after shrinking to {}", keep);
+            v.resize(n, false);
+            ensure_eq!((v.len(), v.count_ones()), (n, keep), "giant.resize", "(len, count_ones) after growing back with zeros");
+            ensure_eq!(v.size_in_elements(), 2 + words, "giant.size", "size_in_elements");
+            rep.class("giant:raw-all-ones");
+        }
+        1 => {
+            // periodic words pushed 64 bits at a time, then a partial tail
+            let p = (period as u64 % 63) + 1;
+            let pattern: u64 = (0..64).filter(|i| i % p == 0).fold(0u64, |a, i| a | (1u64 << i));
+            let per_word = pattern.count_ones() as usize;
+            let mut v = RawVector::with_capacity(n);
+            for _ in 0..n / 64 {
+                unsafe { v.push_int(pattern, 64) };
+            }
+            let tail = n % 64;
+            if tail > 0 {
+                unsafe { v.push_int(pattern, tail) };
+            }
+            let tail_ones = if tail > 0 { (pattern & ((1u64 << tail) - 1)).count_ones() as usize } else { 0 };
+            ensure_eq!(v.len(), n, "giant.len", "length after pushing {} bits in words", n);
+            ensure_eq!(v.count_ones(), (n / 64) * per_word + tail_ones, "giant.count_ones", "count_ones() of a periodic vector of {} bits (period {})", n, p);
+            let mut x = crate::util::SplitMix::new(extra as u64 ^ 0x61a7);
+            for k in 0..20_000u64 {
+                let i = if k % 4 == 0 { ((1u64 << 32) - 100 + k % 200) as usize } else { x.below(n as u64) as usize };
+                let want = (i % 64) as u64 % p == 0;
+                ensure_eq!(v.bit(i), want, "giant.bit", "bit {} of a periodic vector of {} bits", i, n);
+                if i + 64 <= n {
+                    let w = unsafe { v.int(i, 64) };
+                    let off = i % 64;
+                    let want_w = if off == 0 { pattern } else { (pattern >> off) | (pattern << (64 - off)) };
+                    ensure_eq!(w, want_w, "giant.int", "int({}, 64) of a periodic vector", i);
+                }
+            }
+            rep.class("giant:raw-periodic");
+        }
+        _ => {
+            // more than 2^32 one-bit items
+            let mut v = IntVector::with_len(n, 1, 1).map_err(|e| Fail::new("giant.IntVector", e))?;
+            ensure_eq!((v.len(), v.width()), (n, 1), "giant.IntVector", "(len, width) of with_len({}, 1, 1)", n);
+            ensure!(v.get(0) == 1 && v.get(n - 1) == 1 && v.get(1 << 32) == 1, "giant.IntVector.get", "items around 2^32");
+            v.set(1 << 32, 0);
+            v.set((1 << 32) - 1, 0);
+            ensure!(v.get(1 << 32) == 0 && v.get((1 << 32) - 1) == 0 && v.get((1 << 32) + 1) == 1 && v.get((1 << 32) - 2) == 1, "giant.IntVector.set", "set around 2^32 changed exactly the two items");
+            v.push(0);
+            ensure_eq!(v.len(), n + 1, "giant.IntVector.len", "length after push");
+            ensure_eq!(v.pop(), Some(0), "giant.IntVector.pop", "popped item");
+            let raw: &RawVector = v.as_ref();
+            ensure_eq!((raw.len(), raw.count_ones()), (n, n - 2), "giant.IntVector.raw", "(len, count_ones) of the underlying raw vector");
+            ensure_eq!(v.size_in_elements(), 4 + words, "giant.size", "size_in_elements");
+            rep.class("giant:int-width-1");
+        }
+    }
+    rep.nontrivial(mix(0x61a7, mix(kind as u64 % 3, extra as u64)));
+    Ok(())
 }
 
 /// lengths around word boundaries are what matters for the tail invariant
@@ -568,7 +645,7 @@ pub fn int_op() -> BoxedStrategy<IntOp> {
 impl Prop for C05 {
     type Case = Case;
     const ID: &'static str = "C05";
-    const RULE: &'static str = "operation histories (0..60 ops quick, 0..400 thorough) over RawVector (push_bit, push_int/pop_int/set_int with widths 0..64 and values wider than the field, pop_bit, set_bit, resize up/down with both fill values, clear, reserve, complement, with_len, with_capacity, clone) and IntVector (new/with_len/with_capacity/default/From<Vec<T>>/collect for all five item types, push, pop, set, resize with varying fill, clear, reserve, pack, extend, clone) interpreted against a Vec<bool> / (width, Vec<u64>) model; after EVERY step: length, every backing word (content below len, zero bits beyond), count_ones, reads; equality and byte-identical serialization with vectors rebuilt from the model by two other routes. Non-trivial: a shrink that drops set bits followed by growth, or pack after set; distinct by history.";
+    const RULE: &'static str = "operation histories (0..60 ops quick, 0..400 thorough) over RawVector (push_bit, push_int/pop_int/set_int with widths 0..64 and values wider than the field, pop_bit, set_bit, resize up/down with both fill values, clear, reserve, complement, with_len, with_capacity, clone) and IntVector (new/with_len/with_capacity/default/From<Vec<T>>/collect for all five item types, push, pop, set, resize with varying fill, clear, reserve, pack, extend, clone) interpreted against a Vec<bool> / (width, Vec<u64>) model; after EVERY step: length, every backing word (content below len, zero bits beyond), count_ones, reads; equality and byte-identical serialization with vectors rebuilt from the model by two other routes. Plus 3 (quick) / 9 (thorough) vectors of 2^32 + k bits or one-bit items per configuration (all ones; periodic words; IntVector of width 1) checked against closed formulas for len, count_ones, bits and words around 2^32, push/pop/resize/set and sizes. Non-trivial: a shrink that drops set bits followed by growth, or pack after set; distinct by history.";
 
     fn cases(tier: Tier) -> u32 {
         tier.pick(200_000, 2_000_000)
@@ -583,11 +660,31 @@ impl Prop for C05 {
         .boxed()
     }
 
+    fn exhaustive(tier: Tier, shard: usize, nshards: usize, emit: &mut dyn FnMut(Case) -> bool) {
+        // a handful of vectors beyond 2^32 bits (0.5 GiB each): one per shard at most, so that few are alive at once
+        let count = tier.pick(3usize, 9usize);
+        for k in 0..count {
+            if k % nshards == shard {
+                if !emit(Case::Giant(k as u8, (k as u32).wrapping_mul(0x9e37_79b9) >> 7, 1 + (k as u8).wrapping_mul(37))) {
+                    return;
+                }
+            }
+        }
+    }
+
+    fn sanitize(case: &mut Case) {
+        // byte-decoded fuzzer inputs: no half-gigabyte vectors under ASan
+        if matches!(case, Case::Giant(..)) {
+            *case = Case::Raw(Vec::new());
+        }
+    }
+
     fn run(case: &Case) -> CaseResult {
         let mut rep = Report::new();
         match case {
             Case::Raw(ops) => run_raw(ops, &mut rep)?,
             Case::Int(ops) => run_int(ops, &mut rep)?,
+            Case::Giant(kind, extra, period) => run_giant(*kind, *extra, *period, &mut rep)?,
         }
         Ok(rep)
     }
@@ -597,7 +694,7 @@ impl Prop for C05 {
         if widths < 60 {
             return Err(format!("only {} distinct final item widths reached", widths));
         }
-        for c in ["raw:cross-word-field", "raw:shrink-then-grow", "int:shrink-then-grow", "int:pack-after-set", "int:value-wider-than-width"] {
+        for c in ["giant:raw-all-ones", "giant:raw-periodic", "giant:int-width-1", "raw:cross-word-field", "raw:shrink-then-grow", "int:shrink-then-grow", "int:pack-after-set", "int:value-wider-than-width"] {
             if classes.get(c).copied().unwrap_or(0) == 0 {
                 return Err(format!("no generated case reached class {}", c));
             }
@@ -608,7 +705,7 @@ impl Prop for C05 {
     fn assumptions() -> Vec<String> {
         vec![
             "RawVector::set_bit/bit and the unsafe int/set_int/push_int/pop_int are called only within their documented contracts (positions below len, width <= 64)".into(),
-            "vector lengths stay below ~25 000 bits / 300 items so that the state can be compared completely after every step".into(),
+            "vector lengths stay below ~25 000 bits / 300 items so that the state can be compared completely after every step; the vectors beyond 2^32 bits are periodic and compared with closed formulas at sampled positions".into(),
             "capacity() is not asserted: it is not part of the property".into(),
         ]
     }
